@@ -8,6 +8,9 @@
 //       detail::spanning_forest on the spanner, EORD = rank of every spanner edge in std::set<Edge> (pointer) order.
 //       answer = THROW runtime_error EMITTED <n>   |   RET <w> N <n> CYC <len> <ids> ...
 //   J <D|I|L> <s> <graph>                 parmcb::dijkstra directly: DIST .. PRED ..
+//   Y <alg> <k> <graph>                   INEXACT double weights: graph = n m (u v hexw)*m, the weights are C99 hex floats (strtod: exact).  Outside the
+//       exact domain the models speak about; only the public entry point is run (back_inserter) and its answer printed with the returned value as a
+//       hex float (%a):  RET <hex> N <n> CYC ... | THROW runtime_error EMITTED <n>.  Judged structurally only (tools/approx_common.py: judge_inexact).
 // The emitted edge descriptors are looked up in the CALLER's graph after the call has returned (a descriptor that is not
 // an edge of the caller's graph prints as ?), so leaked internals are visible.
 #include "mcb_common.hpp"
@@ -117,6 +120,35 @@ template<class G> void run_alg(const std::string &alg, Toks &t, int scale, std::
     else run_direct<G, parmcb::detail::mcb_sva_fvs_trees<G, WMap, OutIt>>(c, wm, k, scale, out, true);   // sic: what approx_mcb_sva_iso_trees instantiates
 }
 
+static void run_inexact(const std::string &alg, Toks &t, std::ostream &out) {
+    typedef boost::graph_traits<DGraph>::edge_descriptor Edge;
+    size_t k = t.next_sz();
+    GCase<DGraph> c;
+    size_t n = t.next_sz(), m = t.next_sz();
+    c.g = DGraph(n);
+    for (size_t i = 0; i < m; i++) {
+        size_t u = t.next_sz(), v = t.next_sz(); std::string ws = t.next();
+        char *end = nullptr; double w = std::strtod(ws.c_str(), &end);
+        if (end == ws.c_str() || *end != 0 || !std::isfinite(w)) throw std::logic_error("bad float " + ws);
+        boost::put(boost::edge_weight, c.g, boost::add_edge(u, v, c.g).first, w);
+    }
+    for (auto ep = boost::edges(c.g); ep.first != ep.second; ++ep.first) c.edges.push_back(*ep.first);
+    auto wm = boost::get(boost::edge_weight, c.g);
+    std::list<std::list<Edge>> cycles;
+    double ret;
+    try {
+        if (alg == "signed") ret = parmcb::approx_mcb_sva_signed(c.g, wm, k, std::back_inserter(cycles));
+        else if (alg == "fvs") ret = parmcb::approx_mcb_sva_fvs_trees(c.g, wm, k, std::back_inserter(cycles));
+        else if (alg == "iso") ret = parmcb::approx_mcb_sva_iso_trees(c.g, wm, k, std::back_inserter(cycles));
+        else throw std::logic_error("bad alg");
+    } catch (const std::runtime_error &e) {
+        out << "THROW runtime_error EMITTED " << cycles.size(); return;
+    }
+    char buf[64]; snprintf(buf, sizeof buf, "%a", ret);
+    out << "RET " << buf;
+    print_cycles(out, c, cycles);
+}
+
 template<class G> void run_dijkstra(Toks &t, std::ostream &out) {
     typedef typename boost::graph_traits<G>::edge_descriptor Edge;
     typedef typename boost::graph_traits<G>::vertex_descriptor Vertex;
@@ -145,6 +177,9 @@ int main() {
         if (kind == "X") {
             std::string alg = t.next(), ty = t.next(); int scale = (int) t.next_ll();
             if (ty == "D") run_alg<DGraph>(alg, t, scale, out); else if (ty == "L") run_alg<LGraph>(alg, t, 0, out); else run_alg<IGraph>(alg, t, 0, out);
+        } else if (kind == "Y") {
+            std::string alg = t.next();
+            run_inexact(alg, t, out);
         } else if (kind == "J") {
             std::string ty = t.next();
             if (ty == "D") run_dijkstra<DGraph>(t, out); else if (ty == "L") run_dijkstra<LGraph>(t, out); else run_dijkstra<IGraph>(t, out);
